@@ -14,6 +14,8 @@ use std::sync::{Arc, Mutex, RwLock};
 pub struct Rec {
     pub seq: u64,
     pub tid: u64,
+    /// Hash of the emitting thread's name (MTGraph names threads after blocks).
+    pub role: u64,
     pub ev: Ev,
 }
 
@@ -30,6 +32,20 @@ static YIELD: RwLock<Option<YieldHandler>> = RwLock::new(None);
 
 thread_local! {
     static TID: u64 = NEXT_TID.fetch_add(1, Ordering::Relaxed);
+    static ROLE: u64 = crate::util::fnv_str(std::thread::current().name().unwrap_or("?"));
+    static TL_DATA: std::cell::Cell<u64> = const { std::cell::Cell::new(0) };
+}
+
+pub fn role() -> u64 {
+    ROLE.with(|t| *t)
+}
+/// Data-moving events emitted by the calling thread so far.
+pub fn thread_data_events() -> u64 {
+    TL_DATA.with(|c| c.get())
+}
+/// Progress that is not a stream event (a block was dropped, ...).
+pub fn note_progress() {
+    DATA_EVENTS.fetch_add(1, Ordering::Relaxed);
 }
 
 pub fn tid() -> u64 {
@@ -52,8 +68,13 @@ fn cb(ev: &Ev) {
             match ev {
                 Ev::Produce { n, .. } | Ev::Consume { n, .. } if *n > 0 => {
                     DATA_EVENTS.fetch_add(1, Ordering::Relaxed);
+                    TL_DATA.with(|c| c.set(c.get() + 1));
                 }
-                Ev::NcPushed { .. } | Ev::NcPopped { got: true, .. } | Ev::BufferDropped { .. } => {
+                Ev::NcPushed { .. } | Ev::NcPopped { got: true, .. } => {
+                    DATA_EVENTS.fetch_add(1, Ordering::Relaxed);
+                    TL_DATA.with(|c| c.set(c.get() + 1));
+                }
+                Ev::BufferDropped { .. } => {
                     DATA_EVENTS.fetch_add(1, Ordering::Relaxed);
                 }
                 _ => {}
@@ -71,6 +92,7 @@ fn push(ev: &Ev) {
     l.push(Rec {
         seq,
         tid: tid(),
+        role: role(),
         ev: *ev,
     });
 }
